@@ -5,6 +5,8 @@ times inside THIS process (whose PYTHONHASHSEED the harness chose):
   run R   a second call of plan_on / train_on / run_on / the query on the SAME object run A built
   runs X  the SAME object pointed at a second problem with the same labels and different numbers (XR), then called
           on the first problem again (XA), and a fresh object on the second problem (XF): XR = XF and XA = A
+  runs P  two FRESH components one after the other on ONE shared problem object (P1 = P2 = A) with an order-sensitive
+          fingerprint of the problem before / between / after (the component must not edit the problem it was given)
   run B   a fresh object immediately afterwards, nothing re-seeded  ("twice in one process")
   run T   a fresh object on a problem object that was already USED (cached views touched) before being handed over
   runs C  after the global generators were put in different states 2, 3, ... ("scrambled"; case["scrambles"] of them)
@@ -185,8 +187,8 @@ def rand_mdp(spec):
 
     actions = tuple(al(j) for j in range(k))
     if spec.get("actions_as") == "list":
-        actions = list(actions)
-    common = dict(reward=reward, actions=lambda s: actions, is_absorbing=lambda s: idx[s] == goal,
+        actions = list(actions)                  # ONE persistent list object, handed out for every state (QuickMDP's documented form)
+    common = dict(reward=reward, actions=actions if spec.get("actions_as") == "list" else (lambda s: actions), is_absorbing=lambda s: idx[s] == goal,
                   discount_rate=fl(spec.get("gamma", "19/20")))
     if spec.get("deterministic", False):
         return QuickMDP(next_state=lambda s, a: sl(trans[(idx[s], aidx[a])][0][0]) if idx[s] != goal else s,
@@ -200,10 +202,17 @@ def rand_mdp(spec):
     else:
         init = DictDistribution({sl(i): 1 / ninit for i in range(ninit)})
 
+    cache = {}
+
     def nsd(s, a):
+        if spec.get("persistent") and (s, a) in cache:
+            return cache[(s, a)]                 # the SAME distribution object on every call
         if idx[s] == goal:
-            return DictDistribution({s: 1.0})
-        return DictDistribution({sl(t): p for t, p in trans[(idx[s], aidx[a])]})
+            d = DictDistribution({s: 1.0})
+        else:
+            d = DictDistribution({sl(t): p for t, p in trans[(idx[s], aidx[a])]})
+        cache[(s, a)] = d
+        return d
     return QuickTabularMDP(next_state_dist=nsd, initial_state_dist=init, **common)
 
 
@@ -226,17 +235,72 @@ def touch(p):
     return p
 
 
+SHARED = [None]        # runs P: every build_problem() call hands out THIS problem object (the same one for several components)
+
+
 def build_problem(spec):
+    if SHARED[0] is not None:
+        return SHARED[0]
     p = build_problem_(spec)
     if PRETOUCH[0]:
         touch(p)
     return p
 
 
+def fingerprint(p, limit=150):
+    """ORDER-SENSITIVE description of what the problem object hands out: for every state reached from the initial
+    states (in discovery order) the actions in the order given, every successor distribution in the order given,
+    rewards, absorbing flags, observation distributions.  A component that permutes or edits the problem's own
+    containers changes it."""
+    out = {"init": list(p.initial_state_dist().items())}
+    seen, queue, rows = set(), [], []
+    for s, _ in out["init"]:
+        if s not in seen:
+            seen.add(s)
+            queue.append(s)
+    while queue and len(rows) < limit:
+        s = queue.pop(0)
+        acts = list(p.actions(s))
+        row = [s, bool(p.is_absorbing(s)), acts, []]
+        for a in acts:
+            succ = list(p.next_state_dist(s, a).items())
+            ent = [succ, [p.reward(s, a, ns) for ns, _ in succ]]
+            if hasattr(p, "observation_dist"):
+                ent.append([list(p.observation_dist(a, ns).items()) for ns, _ in succ])
+            row[3].append(ent)
+            for ns, _ in succ:
+                if ns not in seen:
+                    seen.add(ns)
+                    queue.append(ns)
+        rows.append(row)
+    out["rows"] = rows
+    for attr in ("_state_list", "_action_list"):           # explicit lists the user may have set
+        if isinstance(getattr(p, attr, None), (list, tuple)):
+            out[attr] = list(getattr(p, attr))
+    return digest(canon(out, ordered=True))
+
+
 def build_problem_(spec):
     kind = spec["kind"]
     if kind == "rand":
         return rand_mdp(spec)
+    if kind == "opengrid":
+        from msdm.core.mdp.quickmdp import QuickMDP
+        N = spec.get("size", 5)
+        moves = {"north": (-1, 0), "south": (1, 0), "east": (0, 1), "west": (0, -1)}
+        strs = spec.get("labels", "str") == "str"
+        lab = (lambda r, c: "r%dc%d" % (r, c)) if strs else (lambda r, c: (r, c))
+        pos = {lab(r, c): (r, c) for r in range(N) for c in range(N)}
+        names = list(moves) if strs else [0, 1, 2, 3]
+        mv = dict(zip(names, moves.values()))
+
+        def next_state(s, a):
+            r, c = pos[s]
+            nr, nc = r + mv[a][0], c + mv[a][1]
+            return lab(nr, nc) if (0 <= nr < N and 0 <= nc < N) else s
+        acts = list(names) if spec.get("actions_as", "list") == "list" else tuple(names)
+        return QuickMDP(next_state=next_state, reward=-1, actions=acts, initial_state=lab(N - 1, 0),
+                        is_absorbing=lambda s: s == lab(0, N - 1), discount_rate=1.0)
     if kind == "rngrid":
         from msdm.tests.domains import make_russell_norvig_grid
         return make_russell_norvig_grid(discount_rate=.95, slip_prob=fl(spec.get("slip_prob", "4/5")))
@@ -633,6 +697,23 @@ def one(case, pl):
         out["XA"], _ = bracket(lambda: (call(), None))
         out["XF"], _ = bracket(lambda: fresh(spec2))
     out["B"], _ = bracket(fresh)
+    # runs P: ONE problem object shared by two fresh components, with an order-sensitive fingerprint of the problem taken
+    # before, between and after: P1 = P2 = A (the problem object may be reused) and the problem must come back unchanged
+    if case.get("p", True) and case["problem"]["kind"] != "none":
+        try:
+            SHARED[0] = build_problem_(case["problem"])
+            fp = [fingerprint(SHARED[0])]
+            out["P1"], _ = bracket(fresh)
+            fp.append(fingerprint(SHARED[0]))
+            out["P2"], _ = bracket(fresh)
+            fp.append(fingerprint(SHARED[0]))
+            out["problem_fingerprints"] = fp
+        except BaseException as e:
+            if isinstance(e, (KeyboardInterrupt, SystemExit)):
+                raise
+            out["problem_fingerprints"] = ["error: " + type(e).__name__ + ": " + str(e)[:200]]
+        finally:
+            SHARED[0] = None
     # run T: base objects already used (cached views touched) before being handed to the component
     if case.get("t", True):
         PRETOUCH[0] = True
